@@ -2,13 +2,15 @@
 """development aid: run a check in survey mode and summarise failing cases (not a check)."""
 import json,collections,sys,glob,os,subprocess
 prop=sys.argv[1]; only=sys.argv[2] if len(sys.argv)>2 else ''
-for f in glob.glob('/tmp/sv.*'): os.remove(f)
-env=dict(os.environ, VCHECK_SURVEY='/tmp/sv', VCHECK_ONLY=only)
+pref=f'/tmp/sv-{prop}-{os.getpid()}'
+env=dict(os.environ, VCHECK_SURVEY=pref, VCHECK_ONLY=only)
 subprocess.run(['/verif/check',prop,'quick'],env=env,stdout=subprocess.DEVNULL,stderr=subprocess.DEVNULL)
 rows=[]
-for f in glob.glob('/tmp/sv.*'):
+for f in glob.glob(pref+'.*'):
     rows+=[json.loads(l) for l in open(f)]
-json.dump(rows,open('/tmp/survey.json','w'))
+    os.remove(f)
+json.dump(rows,open(f'/tmp/survey-{prop}.json','w'))
+print('full dump: /tmp/survey-%s.json' % prop)
 print(len(rows),'failing cases')
 c=collections.Counter((r['check'],r['msg'][:60]) for r in rows)
 for k,v in c.most_common(40): print(v,k)
